@@ -224,13 +224,31 @@ macro_rules! flat_vec {
         }
     )*};
 }
-flat_vec!(Vec2, f32, 2; Vec3, f32, 3; Vec3A, f32, 3; Vec4, f32, 4; DVec2, f64, 2; DVec3, f64, 3; DVec4, f64, 4;
+flat_vec!(Vec2, f32, 2; Vec3, f32, 3; Vec4, f32, 4; DVec2, f64, 2; DVec3, f64, 3; DVec4, f64, 4;
     I8Vec2, i8, 2; I8Vec3, i8, 3; I8Vec4, i8, 4; U8Vec2, u8, 2; U8Vec3, u8, 3; U8Vec4, u8, 4;
     I16Vec2, i16, 2; I16Vec3, i16, 3; I16Vec4, i16, 4; U16Vec2, u16, 2; U16Vec3, u16, 3; U16Vec4, u16, 4;
     IVec2, i32, 2; IVec3, i32, 3; IVec4, i32, 4; UVec2, u32, 2; UVec3, u32, 3; UVec4, u32, 4;
     I64Vec2, i64, 2; I64Vec3, i64, 3; I64Vec4, i64, 4; U64Vec2, u64, 2; U64Vec3, u64, 3; U64Vec4, u64, 4;
     USizeVec2, usize, 2; USizeVec3, usize, 3; USizeVec4, usize, 4;
     Quat, f32, 4; DQuat, f64, 4);
+
+/// Vec3A is always built with a *poisoned* hidden fourth lane (through the public from_vec4), so
+/// that every check that constructs a Vec3A also notices an operation that lets the lane leak
+/// (C08 states that it never may). Under scalar-math from_vec4 simply truncates.
+const POISON: [u32; 4] = [0x7FC0_0000, 0x7149_F2CA, 0xF149_F2CA, 0x7F80_0001]; // NaN, 1e30, -1e30, sNaN
+impl Flat for Vec3A {
+    type S = f32;
+    const N: usize = 3;
+    #[inline]
+    fn build(l: &[f32]) -> Self {
+        let k = (l[0].to_bits() ^ l[1].to_bits().rotate_left(7) ^ l[2].to_bits().rotate_left(13)).wrapping_mul(0x9E37_79B1) >> 30;
+        Vec3A::from_vec4(Vec4::new(l[0], l[1], l[2], f32::from_bits(POISON[k as usize])))
+    }
+    #[inline]
+    fn put(&self, out: &mut [f32]) {
+        out[..3].copy_from_slice(&self.to_array())
+    }
+}
 
 impl<T: Flat + Copy, const K: usize> Flat for [T; K] {
     type S = T::S;
